@@ -722,7 +722,9 @@ func (s *Store) gcIndex(ctx context.Context) error {
 				if subject == nil {
 					break
 				}
-				if graph.Exists(*subject) {
+				// only a manifest can have referrers: a blob named as subject, which the
+				// graph may know merely by reference, keeps nothing alive
+				if descriptor.IsManifest(*subject) && graph.Exists(*subject) {
 					if err := tagResolver.Tag(ctx, deleteAnnotationRefName(desc), desc.Digest.String()); err != nil {
 						return err
 					}
